@@ -519,6 +519,11 @@ func (i *interpreter) runPath(w workItem) {
 					outcome = outInconclusive
 				case abUnwind:
 					outcome = outUnwind
+					if i.P.params["unwind_violation"] == 1 {
+						// termination is the property: the code-derived step cap was exceeded
+						i.recordViolation("unwind", "non-termination", r.msg, p.model)
+						outcome = outViolation
+					}
 				case abDeadlock:
 					i.recordViolation("deadlock", "deadlock", r.msg, p.model)
 					outcome = outViolation
